@@ -179,7 +179,7 @@ class C13:
                     extra["co_stacksize"] = ["i", "1"]      # (3.13's code constructor raises a zero stack size to 1 itself)
                 q = ["", "f", "<locals>.f", "a.b.<locals>.\u00e9"][int(case["nlocals"]) % 4]
                 extra["co_qualname"] = ["t", rw.hx(q.encode("utf-8"))]
-            tree = rm.template_code_tree(v, ["T", [["N"], ["i", "7"]]], varnames=["v%d" % i for i in range(nvars)], extra=extra)
+            tree = rm.template_code_tree(v, ["T", [["N"], ["i", "7"], ["b", 1], ["b", 0], ["i", "1"], ["i", "0"]]], varnames=["v%d" % i for i in range(nvars)], extra=extra)
             payload, _ = rm.encode(tree, v)
             hdr = ctx.pool.ref(v).call("compile", src="pass", dis=False, filename="prog.py")["header"]
             ld = ctx.pool.ref(v).call_raw("loads", payload=rw.hx(payload))
